@@ -23,8 +23,19 @@ result_meta (start, duration) the Lab handed out in that step must equal what is
 moment, and the whole history must agree with the plain-map reference (a failed re-execution leaves
 the stored result cached) and with the Lean `HIST` model.
 
+(RT) ROUND TRIPS THROUGH cached_tasks (props/c08x.py, `rt_*`): run -> cached_tasks -> is_cached / cache_key of every listed
+task -> run_tasks(listed) / uncache_tasks(listed), over dict parameters with unsorted keys, both cache kinds.
+
 All are compared with the Lean `HIST` model on the level of which tasks execute / load / are cached.
-"""
+
+ATTRIBUTION. Every violation carries `props`: the properties whose STATEMENT the observed behaviour violates -
+  * run_tasks returned a value that is not the task's own value (e.g. the one stored for a different task):  C01, C06
+  * run() was called again although the result was stored / a cached task was re-executed:                   C03, C06
+  * is_cached true for a task that never ran, false for one that ran; listed but not is_cached; uncache that
+    removes nothing; an entry added by a cache hit (the Lab is not a plain task -> result map):                C08 (+ C06 for is_cached)
+  * result_meta other than the recorded one:                                                                 C06
+`run_for(ctx, pid, families)` runs the families for another property's check (C01, C03, C08) and keeps the violations
+labelled with that property; C06 itself reports the ones labelled C06."""
 import json
 import logging
 import os
@@ -77,7 +88,7 @@ def gen_sequences(rng, tier):
     for _ in range(reps):
         for group in C.GROUPS:
             for shape in C.SHAPES:
-                order = [0, 1, 2]
+                order = list(range(len(C.GROUPS[group])))
                 rng.shuffle(order)
                 seqs.append(dict(group=group, shape=shape, order=order, kind=rng.choice('po'),
                                  backend=rng.choice(['serial', 'serial', 'fork'])))
@@ -121,7 +132,7 @@ def conf_first(spec_path, out_path):
                     got = 'raised ' + type(e).__name__
                 lines, pos = _read_log(log, pos)
                 top = type(t).__name__
-                steps.append(dict(v=repr(v), cached_before=cached_before, got=got, want=C.expected(seq['shape'], v),
+                steps.append(dict(v=C.label(v), cached_before=cached_before, got=got, want=C.expected(seq['shape'], v),
                                   executed=[l[2] for l in lines if l[0] == 'X'],
                                   cached_after=bool(lab.is_cached(t))))
             # same process, fresh objects and a fresh Lab: everything loads its own value
@@ -135,7 +146,7 @@ def conf_first(spec_path, out_path):
                 except BaseException as e:
                     got = 'raised ' + type(e).__name__
                 lines, pos = _read_log(log, pos)
-                again.append(dict(v=repr(v), cached=c, got=got, want=C.expected(seq['shape'], v),
+                again.append(dict(v=C.label(v), cached=c, got=got, want=C.expected(seq['shape'], v),
                                   executed=[l[2] for l in lines if l[0] == 'X']))
             out.append(dict(seq=seq, dir=d, steps=steps, again=again, distinct_keys=len(set(keys))))
         except BaseException:
@@ -170,7 +181,7 @@ def conf_second(spec_path, out_path):
                 except BaseException as e:
                     got = 'raised ' + type(e).__name__
                 lines, pos = _read_log(log, pos)
-                fresh.append(dict(v=repr(v), cached=c, got=got, want=C.expected(seq['shape'], v),
+                fresh.append(dict(v=C.label(v), cached=c, got=got, want=C.expected(seq['shape'], v),
                                   executed=[l[2] for l in lines if l[0] == 'X']))
             out.append(dict(rec, fresh=fresh))
         except BaseException:
@@ -179,41 +190,50 @@ def conf_second(spec_path, out_path):
     json.dump(out, open(out_path, 'w'), default=str)
 
 
+CONF_KIND = {'nested-enum': 'members of same-named enum classes nested in different holder classes',
+             'module-enum': 'members of same-qualname enum classes of two modules',
+             'task-module': 'same-qualname task classes of two modules, equal parameter values'}
+
+
 def conf_monitor(rec):
+    """[(what, [properties whose statement it violates])]"""
     out = []
     seq = rec['seq']
     tag = f"confusable tasks ({seq['group']}/{seq['shape']}, cache {'Pickle' if seq['kind'] == 'p' else 'second BaseCache'}, {seq['backend']})"
+    if seq['group'] in CONF_KIND:
+        tag = tag[:-1] + '; ' + CONF_KIND[seq['group']] + ')'
+    other = 'other' if seq['group'] in CONF_KIND else '==-equal'
     for i, s in enumerate(rec['steps']):
-        first = rec['steps'][0]
+        ran = ', '.join(o['v'] for o in rec['steps'][:i])
         if s['cached_before']:
-            out.append(f"{tag}: task with parameter {s['v']} is reported cached before it ever ran (only the ==-equal task with {first['v']} had run)")
+            out.append((f"{tag}: task with parameter {s['v']} is reported cached before it ever ran (only the {other} task(s) with {ran} had run)", ['C06', 'C08']))
         if s['got'] != s['want']:
-            out.append(f"{tag}: run_tasks returned {s['got']!r} for the task with parameter {s['v']}; its own value is {s['want']!r}" +
-                       (' (that is the result stored for a different task)' if any(s['got'] == o['want'] for o in rec['steps'] if o is not s) else ''))
+            out.append((f"{tag}: run_tasks returned {s['got']!r} for the task with parameter {s['v']}; its own value is {s['want']!r}" +
+                        (' (that is the result stored for a different task)' if any(s['got'] == o['want'] for o in rec['steps'] if o is not s) else ''), ['C01', 'C06']))
         elif not s['cached_before'] and s['want'] not in s['executed']:
-            out.append(f"{tag}: the task with parameter {s['v']} was not executed although it was not cached")
+            out.append((f"{tag}: the task with parameter {s['v']} was not executed although it was not cached", ['C06']))
         if not s['cached_after']:
-            out.append(f"{tag}: the task with parameter {s['v']} executed successfully but is_cached is false")
+            out.append((f"{tag}: the task with parameter {s['v']} executed successfully but is_cached is false", ['C06', 'C08']))
     for where, rows in (('same process', rec['again']), ('fresh interpreter', rec.get('fresh', []))):
         for s in rows:
             if not s['cached']:
-                out.append(f"{tag}: {where}: the task with parameter {s['v']} is not reported cached after its successful run")
+                out.append((f"{tag}: {where}: the task with parameter {s['v']} is not reported cached after its successful run", ['C06', 'C08']))
             if s['got'] != s['want']:
-                out.append(f"{tag}: {where}: a load for the task with parameter {s['v']} returned {s['got']!r}, stored for a different task; its own value is {s['want']!r}")
+                out.append((f"{tag}: {where}: a load for the task with parameter {s['v']} returned {s['got']!r}, stored for a different task; its own value is {s['want']!r}", ['C01', 'C06']))
             if s['executed']:
-                out.append(f"{tag}: {where}: run() was called again for {s['executed']} although the result was stored")
+                out.append((f"{tag}: {where}: run() was called again for {s['executed']} although the result was stored", ['C03', 'C06']))
     return out
 
 
-def conf_model_line():
-    # three distinct independent tasks of one caching type: run each after checking is_cached, then
+def conf_model_line(n=3):
+    # n distinct independent tasks of one caching type: run each after checking is_cached, then
     # check + run each again
     ops = []
-    for t in range(3):
+    for t in range(n):
         ops += [f'I:{t}', f'R0:{t + 1}:{t}', f'I:{t}']
-    for t in range(3):
-        ops += [f'I:{t}', f'R0:{t + 4}:{t}']
-    return 'HIST ns=0 ty=0,0,0 ca=p deps=;; fl=0,0,0 np= ops=' + '/'.join(ops)
+    for t in range(n):
+        ops += [f'I:{t}', f'R0:{t + n + 1}:{t}']
+    return f"HIST ns=0 ty={','.join('0' * n)} ca=p deps={';' * (n - 1)} fl={','.join('0' * n)} np= ops=" + '/'.join(ops)
 
 
 def conf_pattern_real(rec):
@@ -347,6 +367,7 @@ def run_scripts(scenarios, timeout=50):
 
 
 def script_monitor(r):
+    """[(what, [properties whose statement it violates])]"""
     out = []
     b1, b2 = r['scenario']
     tag = f"task classes defined in the __main__ script, first run '{b1}', second run (fresh interpreter) '{b2}'"
@@ -354,20 +375,21 @@ def script_monitor(r):
     ok1 = [n for n in NAMES if r1['values'].get(n) == WANT[n]]
     if len(ok1) < len(NAMES):
         # the first run itself must work for the scenario to say anything
-        out.append(f"{tag}: the first run did not return the tasks' values: {r1['values']} err={r1['err']}")
+        out.append((f"{tag}: the first run did not return the tasks' values: {r1['values']} err={r1['err']}", ['C01', 'C06']))
         return out
     for n in NAMES:
         if not r1['cached_after'].get(n):
-            out.append(f'{tag}: {n} executed successfully but is_cached is false in the same process')
+            out.append((f'{tag}: {n} executed successfully but is_cached is false in the same process', ['C06', 'C08']))
         if not r2['cached_before'].get(n):
-            out.append(f'{tag}: {n} executed successfully in the first run but is_cached is false in a fresh process')
+            out.append((f'{tag}: {n} executed successfully in the first run but is_cached is false in a fresh process', ['C06', 'C08']))
         if r2['values'].get(n) != WANT[n]:
-            out.append(f"{tag}: the second run returned {r2['values'].get(n)!r} for {n}; the first run stored {WANT[n]}")
+            out.append((f"{tag}: the second run returned {r2['values'].get(n)!r} for {n}; the first run stored {WANT[n]}", ['C01', 'C06']))
     if r['exec2']:
-        out.append(f"{tag}: the second run called run() again for {r['exec2']} although the first run stored every result")
+        out.append((f"{tag}: the second run called run() again for {r['exec2']} although the first run stored every result "
+                    "(a task whose result is already cached is loaded instead of executed)", ['C03', 'C06']))
     for n in ('Total 0', 'Total 100'):
         if r2['metas'].get(n) != r1['metas'].get(n) and r2['values'].get(n) == WANT[n] and not r['exec2']:
-            out.append(f"{tag}: result_meta of {n} after the load {r2['metas'].get(n)} differs from the recorded {r1['metas'].get(n)}")
+            out.append((f"{tag}: result_meta of {n} after the load {r2['metas'].get(n)} differs from the recorded {r1['metas'].get(n)}", ['C06']))
     return out
 
 
@@ -486,6 +508,7 @@ def mix_second(spec_path, out_path):
 
 
 def mix_monitor(rec):
+    """[(what, [properties whose statement it violates])]"""
     out = []
     ops = rec['case']['ops']
     for i, (real, ref) in enumerate(zip(rec['real'], rec['ref'])):
@@ -493,8 +516,8 @@ def mix_monitor(rec):
         if real != ref:
             prev_ok = f'{op}'
             kind = 'run_tasks' if op[0] == 'R' else {'C': 'cached_tasks', 'U': 'uncache_tasks', 'I': 'is_cached'}[op[0]]
-            out.append(f"one Lab, step {i} {op}: {kind} gave '{real}' but the results stored by the earlier successful executions dictate '{ref}' "
-                       "(a stored result must stay cached and be returned, with its recorded start/duration, until it is replaced by a successful execution)")
+            out.append((f"one Lab, step {i} {op}: {kind} gave '{real}' but the results stored by the earlier successful executions dictate '{ref}' "
+                       "(a stored result must stay cached and be returned, with its recorded start/duration, until it is replaced by a successful execution)", ['C06', 'C08']))
             break
         disk = rec['fresh'][i]
         for k, m in rec['seen'][i].items():
@@ -502,29 +525,33 @@ def mix_monitor(rec):
             if d is None:
                 continue    # cache=None type / failed execution: nothing on disk to compare with
             if d['meta'] != m or d['listed'] != m:
-                out.append(f"one Lab, step {i} {op}: task {k} was handed out with result_meta {m}, but a fresh interpreter reads {d['meta']} (cached_tasks: {d['listed']}) from the entry on disk at that moment")
+                out.append((f"one Lab, step {i} {op}: task {k} was handed out with result_meta {m}, but a fresh interpreter reads {d['meta']} (cached_tasks: {d['listed']}) from the entry on disk at that moment", ['C06']))
                 return out
         for k, v in rec['loaded'][i].items():
             d = disk.get(int(k)) if int(k) in disk else disk.get(str(k))
             if d is not None and d['value'] != v[0]:
-                out.append(f"one Lab, step {i} {op}: load of task {k} returned {v[0]} but the entry on disk holds {d['value']}")
+                out.append((f"one Lab, step {i} {op}: load of task {k} returned {v[0]} but the entry on disk holds {d['value']}", ['C01', 'C06']))
                 return out
     return out
 
 # =================================================================== entry points
-def run_conf(seqs, workers, timeout, flags=('--conf1', '--conf2')):
+def run_conf(seqs, workers, timeout, flags=('--conf1', '--conf2'), script=None):
+    """two phases of worker processes (the second ones are fresh interpreters that get the first ones' records);
+    flags[1] None: one phase only"""
     root = tempfile.mkdtemp(prefix='verif-c06c-')
     try:
         chunks = [ch for ch in (seqs[i::workers] for i in range(workers)) if ch]
         outs = []
         errors = []
         for phase, flag in ((1, flags[0]), (2, flags[1])):
+            if flag is None:
+                continue
             procs, files = [], []
             for i, ch in enumerate(chunks):
                 sp, op = os.path.join(root, f'spec{phase}_{i}.json'), os.path.join(root, f'out{phase}_{i}.json')
                 payload = dict(seqs=ch, root=root) if phase == 1 else dict(records=outs[i])
                 json.dump(payload, open(sp, 'w'))
-                procs.append(_spawn([sys.executable, os.path.abspath(__file__), flag, sp, op],
+                procs.append(_spawn([sys.executable, script or os.path.abspath(__file__), flag, sp, op],
                                     os.path.join(root, f'log{phase}_{i}.txt'), 500 * phase + i))
                 files.append(op)
             errors += _wait_all(procs, timeout)
@@ -534,33 +561,50 @@ def run_conf(seqs, workers, timeout, flags=('--conf1', '--conf2')):
                     new.append(json.load(open(op)))
                 else:
                     new.append([])
-                    errors.append('confusable worker produced no output: ' + open(os.path.join(root, f'log{phase}_{i}.txt')).read()[-400:])
+                    errors.append('history worker produced no output: ' + open(os.path.join(root, f'log{phase}_{i}.txt')).read()[-400:])
             outs = new
         return [r for o in outs for r in o], errors
     finally:
         shutil.rmtree(root, ignore_errors=True)
 
 
-def run_extra(rng, tier, only=None):
-    """returns dict(violations, disagreements, evaluations, nontrivial, dist, errors, samples)"""
+FAMILIES = ('confusable', 'script', 'one-lab', 'round-trip')
+KINDS = FAMILIES      # the replay kinds this module re-runs (`run_extra(only=replay)`)
+
+
+def run_extra(rng, tier, only=None, families=FAMILIES, pid='C06'):
+    """returns dict(violations, disagreements, evaluations, nontrivial, dist, errors, samples); every violation
+    carries `props`, the properties whose statement it violates (see the module docstring); `pid`: the property whose check
+    this is (its alarms get the shrinking budget)"""
     import driver
+    import threading
+    from props import c08x
     t0 = time.time()
     violations, disagreements, errors = [], [], []
-    seqs = gen_sequences(rng, tier) if only is None else ([only['seq']] if only.get('kind') == 'confusable' else [])
-    scen = script_scenarios(tier) if only is None else ([tuple(only['scenario'])] if only.get('kind') == 'script' else [])
-    import threading
+    if only is not None:
+        families = (only.get('kind'),)
+    seqs = [] if 'confusable' not in families else (gen_sequences(rng, tier) if only is None else [only['seq']])
+    scen = [] if 'script' not in families else (script_scenarios(tier) if only is None else [tuple(only['scenario'])])
+    mixed = [] if 'one-lab' not in families else (gen_mixed(rng, tier) if only is None else [only['case']])
+    rts = [] if 'round-trip' not in families else (c08x.rt_gen(rng, tier) if only is None else [only['case']])
     box = {}
     th = threading.Thread(target=lambda: box.update(zip(('recs', 'errors'), run_scripts(scen))) if scen else box.update(recs=[], errors=[]))
     th.start()
+    rbox = {}
+    rth = threading.Thread(target=lambda: rbox.update(zip(('recs', 'errors'), run_conf(
+        rts, 4, 50 if tier == 'quick' else 600, flags=('--rt', None), script=os.path.abspath(c08x.__file__)) if rts else ([], []))))
+    rth.start()
     crecs, e = run_conf(seqs, 4, 50 if tier == 'quick' else 600) if seqs else ([], [])
     errors += e
-    mixed = gen_mixed(rng, tier) if only is None else ([only['case']] if only.get('kind') == 'one-lab' else [])
     mrecs, e = run_conf(mixed, 8, 55 if tier == 'quick' else 800, flags=('--mix1', '--mix2')) if mixed else ([], [])
     errors += e
     th.join()
+    rth.join()
     srecs = box.get('recs', [])
     errors += box.get('errors', [])
-    errors += [r['infra'] for r in crecs + srecs + mrecs if r.get('infra')]
+    rrecs = rbox.get('recs', [])
+    errors += rbox.get('errors', []) + ([] if 'recs' in rbox else ['round-trip family did not finish'])
+    errors += [r['infra'] for r in crecs + srecs + mrecs + rrecs if r.get('infra')]
     mrecs = [r for r in mrecs if not r.get('infra')]
     if mrecs:
         from props import c08
@@ -570,46 +614,149 @@ def run_extra(rng, tier, only=None):
             if model != r['real']:
                 i = next((j for j, (a, b) in enumerate(zip(r['real'], model)) if a != b), 0)
                 disagreements.append(dict(family='one-lab', case=r['case'], step=i, real=r['real'][i:i + 1], model=model[i:i + 1]))
-            for what in mix_monitor(r):
-                violations.append(dict(what=what, replay=dict(kind='one-lab', case=r['case'], real=r['real'], reference=r['ref'])))
+            for what, props in mix_monitor(r):
+                violations.append(dict(what=what, props=props, replay=dict(kind='one-lab', case=r['case'], real=r['real'], reference=r['ref'])))
     crecs = [r for r in crecs if not r.get('infra')]
     srecs = [r for r in srecs if not r.get('infra')]
-    lines = ([conf_model_line()] if crecs else []) + ([SCRIPT_MODEL] if srecs else [])
+    rrecs = [r for r in rrecs if not r.get('infra')]
+    sizes = sorted({len(r['steps']) for r in crecs})
+    lines = [conf_model_line(n) for n in sizes] + ([SCRIPT_MODEL] if srecs else []) + [c08x.rt_model_line(r) for r in rrecs]
     outs = driver.run_lines(lines) if lines else []
     if crecs:
-        pm = conf_pattern_model(outs[0])
+        pms = {n: conf_pattern_model(outs[i]) for i, n in enumerate(sizes)}
         for r in crecs:
-            pr = conf_pattern_real(r)
+            pr, pm = conf_pattern_real(r), pms[len(r['steps'])]
             if pr != pm:
-                disagreements.append(dict(family='confusable', seq=r['seq'], real=pr, model=pm, line=lines[0]))
-            for what in conf_monitor(r):
-                violations.append(dict(what=what, replay=dict(kind='confusable', seq=r['seq'], steps=r['steps'],
-                                                              again=r['again'], fresh=r.get('fresh'))))
+                disagreements.append(dict(family='confusable', seq=r['seq'], real=pr, model=pm, line=lines[sizes.index(len(r['steps']))]))
+            for what, props in conf_monitor(r):
+                violations.append(dict(what=what, props=props, replay=dict(kind='confusable', seq=r['seq'], steps=r['steps'],
+                                                                           again=r['again'], fresh=r.get('fresh'))))
     if srecs:
-        pm = script_pattern_model(outs[-1])
+        pm = script_pattern_model(outs[len(sizes)])
         for r in srecs:
             pr = script_pattern_real(r)
             if pr != pm:
-                disagreements.append(dict(family='script', scenario=r['scenario'], real=pr, model=pm, line=lines[-1]))
-            for what in script_monitor(r):
-                violations.append(dict(what=what, replay=dict(kind='script', scenario=r['scenario'],
-                                                              run1=r.get('run1'), run2=r.get('run2'),
-                                                              exec1=r.get('exec1'), exec2=r.get('exec2'))))
+                disagreements.append(dict(family='script', scenario=r['scenario'], real=pr, model=pm, line=SCRIPT_MODEL))
+            for what, props in script_monitor(r):
+                violations.append(dict(what=what, props=props, replay=dict(kind='script', scenario=r['scenario'],
+                                                                           run1=r.get('run1'), run2=r.get('run2'),
+                                                                           exec1=r.get('exec1'), exec2=r.get('exec2'))))
+    for r, mo, ml in zip(rrecs, outs[len(outs) - len(rrecs):], lines[len(lines) - len(rrecs):]):
+        pr, pm = c08x.rt_pattern_real(r), c08x.rt_pattern_model(mo)
+        if pr != pm:
+            i = next((j for j, (a, b) in enumerate(zip(pr, pm)) if a != b), min(len(pr), len(pm)))
+            disagreements.append(dict(family='round-trip', case=r['case'], step=i, real=pr[i:i + 1], model=pm[i:i + 1], line=ml))
+        for what, props in c08x.rt_monitor(r):
+            violations.append(dict(what=what, props=props, replay=dict(kind='round-trip', case=r['case'], listed=r.get('listed'),
+                                                                       exec2=r.get('exec2'), keys=[r.get('keys1'), r.get('keys2'), r.get('keys3')])))
+    if only is None:
+        # a small failing input for the first alarm of every kind (at most 4 kinds): shrink by re-running the real code
+        def run_cases(cases):
+            return run_conf(cases, 6, 60, flags=('--rt', None), script=os.path.abspath(c08x.__file__))[0]
+        first = {}
+        for v in violations:
+            if v['replay']['kind'] == 'round-trip' and pid in v['props']:
+                first.setdefault(c08x.rt_kind(v['what']), v)
+        deadline = time.time() + (12 if tier == 'quick' else 120)
+        for kind, v in list(first.items())[:3]:
+            small = c08x.rt_shrink(v['replay']['case'], kind, run_cases, deadline=deadline)
+            if small != v['replay']['case']:
+                rec = next((r for r in run_cases([small]) if not r.get('infra')), None)
+                w = next((w for w, _ in (c08x.rt_monitor(rec) if rec else []) if c08x.rt_kind(w) == kind), None)
+                if w:
+                    v['what'] = w
+                    v['replay'] = dict(kind='round-trip', case=small, listed=rec.get('listed'), exec2=rec.get('exec2'),
+                                       keys=[rec.get('keys1'), rec.get('keys2'), rec.get('keys3')])
+        # the shrunk ones first
+        violations.sort(key=lambda v: 0 if any(v is f for f in first.values()) else 1)
     dist = dict(one_lab_histories=len(mrecs),
                 one_lab_steps=sum(len(r['case']['ops']) for r in mrecs),
                 one_lab_worker_runs={b: sum(1 for r in mrecs for op in r['case']['ops'] if op[0] == 'R' and op[5] == b) for b in ('serial', 'fork', 'spawn')},
                 one_lab_bust_runs_with_failing_task=sum(1 for r in mrecs for op in r['case']['ops'] if op[0] == 'R' and op[1] and op[4]),
                 one_lab_snapshots_read_by_fresh_interpreter=sum(len(r.get('fresh', [])) for r in mrecs),
                 confusable_sequences=len(crecs),
+                confusable_by_group={g: sum(1 for r in crecs if r['seq']['group'] == g) for g in sorted({r['seq']['group'] for r in crecs})},
                 confusable_by_shape={s: sum(1 for r in crecs if r['seq']['shape'] == s) for s in ('top', 'tuple', 'dict', 'deep', 'task')},
                 confusable_distinct_keys=sorted({r['distinct_keys'] for r in crecs}),
                 script_scenarios=['->'.join(r['scenario']) for r in srecs],
                 script_worker_module=sorted({r['run1'].get('module') for r in srecs if r.get('run1')}),
+                round_trip_histories=len(rrecs),
+                round_trip_tasks=sum(r['n'] for r in rrecs),
+                round_trip_unsorted_dict_parameters=sum(r['unsorted_dicts'] for r in rrecs),
+                round_trip_listed_tasks=sum(len(r['listed']) for r in rrecs if isinstance(r.get('listed'), list)),
+                round_trip_modes={m: sum(1 for r in rrecs if r['case']['mode'] == m) for m in ('run', 'uncache')},
+                round_trip_first_run_backend={b: sum(1 for r in rrecs if r['case']['backend'] == b) for b in ('serial', 'fork')},
+                families=list(families),
                 extra_wall_s=round(time.time() - t0, 1))
     samples = [dict(seq=r['seq'], steps=[(s['v'], s['got']) for s in r['steps']]) for r in crecs[:1]] + \
-              [dict(scenario=r['scenario'], exec1=r['exec1'], exec2=r['exec2']) for r in srecs[:1]]
-    return dict(violations=violations, disagreements=disagreements, evaluations=len(crecs) + len(srecs) + len(mrecs),
-                nontrivial=len(crecs) + len(srecs) + len(mrecs), dist=dist, errors=errors, samples=samples)
+              [dict(scenario=r['scenario'], exec1=r['exec1'], exec2=r['exec2']) for r in srecs[:1]] + \
+              [dict(round_trip=r['case'], listed=[(x['k'], x['key']) for x in r['listed']][:4]) for r in rrecs[:1] if isinstance(r.get('listed'), list)]
+    n_eval = len(crecs) + len(srecs) + len(mrecs) + len(rrecs)
+    return dict(violations=violations, disagreements=disagreements, evaluations=n_eval,
+                nontrivial=n_eval, dist=dist, errors=errors, samples=samples)
+
+
+def labelled(violations, pid):
+    """the violations whose `props` name the property `pid`"""
+    return [v for v in violations if pid in v.get('props', ())]
+
+
+def run_for(ctx, pid, families, salt):
+    """the families above, run for the check of property `pid` (C01, C03, C08): returns the `run_extra` dict with the
+    violations restricted to those that violate `pid`'s statement. With ctx['replay'] of one of this module's kinds:
+    that case only."""
+    import random
+    rng = random.Random(ctx['seed'] * 1000003 + salt)
+    only = None
+    if ctx.get('replay'):
+        only = json.load(open(ctx['replay'])).get('replay') or {}
+    x = run_extra(rng, ctx['tier'], only=only, families=families, pid=pid)
+    x['all_violations'] = len(x['violations'])
+    x['violations'] = labelled(x['violations'], pid)
+    return x
+
+
+def run_for_thread(ctx, pid, families, salt, box):
+    """thread target: box['x'] = run_for(...) (or the traceback as an infrastructure error)"""
+    try:
+        box['x'] = run_for(ctx, pid, families, salt)
+    except BaseException:
+        import traceback
+        box['x'] = dict(errors=['history families raised: ' + traceback.format_exc()[-800:]])
+
+
+def replay_kind(ctx):
+    if not ctx.get('replay'):
+        return None
+    try:
+        return (json.load(open(ctx['replay'])).get('replay') or {}).get('kind')
+    except Exception:
+        return None
+
+
+def replay_result(x):
+    """result dict of a check for the replay of one case of these families"""
+    if x['errors']:
+        return dict(infra_error='; '.join(x['errors']))
+    return dict(evaluations=x['evaluations'], distinct_nontrivial=x['nontrivial'], rule='replay of one recorded history',
+                samples=x['samples'], violations=x['violations'], disagreements=[])
+
+
+def merge_into(res, x, note):
+    """merge the labelled result `x` of `run_for` into the result dict `res` of another property's own check (the
+    model disagreements of these families belong to the C06 / C08 correspondence and are only counted here)"""
+    if res.get('infra_error'):
+        return res
+    if x.get('errors'):
+        return dict(infra_error='; '.join(x['errors']))
+    res['evaluations'] = res.get('evaluations', 0) + x['evaluations']
+    res['distinct_nontrivial'] = res.get('distinct_nontrivial', 0) + x['nontrivial']
+    res['violations'] = list(res.get('violations', [])) + x['violations']
+    res['samples'] = list(res.get('samples', []))[:2] + x['samples'][:2]
+    res['distribution'] = dict(res.get('distribution', {}), history_families=dict(
+        x['dist'], violations_of_any_property=x['all_violations'], model_disagreements=len(x['disagreements'])))
+    res['rule'] = res.get('rule', '') + '; + ' + note
+    return res
 
 
 if __name__ == '__main__':
